@@ -41,6 +41,8 @@ def h(base, a, b=2):
 
 p10 = functools.partial(h, 10)
 p20 = functools.partial(h, 20)
+pk5 = functools.partial(h, 10, b=5)
+pk7 = functools.partial(h, 10, b=7)
 
 class K:
     def __init__(self, tag):
@@ -80,6 +82,8 @@ def forms_for(prog):
             ("default_pos", lambda va, vb: ((va,), {})),          # only when vb is the default
             ("default_kw", lambda va, vb: ((), {"a": va})),       # only when vb is the default
         ]
+    if prog in ("pk5", "pk7"):
+        return [("default_pos", lambda va, vb: ((va,), {})), ("default_kw", lambda va, vb: ((), {"a": va}))]
     if prog == "g":
         return [
             ("pos", lambda va, vb: ((va, vb), {})),
@@ -89,6 +93,7 @@ def forms_for(prog):
             ("rest", lambda va, vb: ((va, vb, vb), {})),          # a different call: surplus positional
             ("kw_a", lambda va, vb: ((va, vb), {"a": va})),       # a different call: 'a' lands in **kw
             ("rest_k0", lambda va, vb: ((va, vb, vb), {"k": 0})),  # same binding as "rest"
+            ("rest_kb", lambda va, vb: ((va, vb, vb), {"k": vb})),  # a different call: k takes the surplus value
         ]
     raise KeyError(prog)
 
@@ -105,15 +110,15 @@ def resolve(ns, prog):
 
 def bound_key(prog, plain, args, kwargs, ignore):
     """Typed canonical binding of a call (what Python binds), minus ignored names."""
-    if prog in ("p10", "p20"):
+    if prog in ("p10", "p20", "pk5", "pk7"):
         sig = inspect.signature(plain.func)
-        ba = sig.bind(*(plain.args + tuple(args)), **kwargs)
+        ba = sig.bind(*(plain.args + tuple(args)), **dict(plain.keywords, **kwargs))
     else:
         sig = inspect.signature(plain)
         ba = sig.bind(*args, **kwargs)
     ba.apply_defaults()
     items = tuple(sorted((k, typed(v)) for k, v in ba.arguments.items() if k not in ignore))
-    ident = prog if prog in ("k1.m", "k2.m", "p10", "p20") else prog.split(".")[0]
+    ident = prog if prog in ("k1.m", "k2.m", "p10", "p20", "pk5", "pk7") else prog.split(".")[0]
     return (ident, items)
 
 
@@ -164,7 +169,7 @@ class World:
         plain = resolve(self.ns, prog)
         builder = dict(forms_for(prog))[form]
         args, kwargs = builder(va, vb)
-        if prog in ("p10", "p20"):
+        if prog in ("p10", "p20", "pk5", "pk7"):
             expected = plain(*args, **kwargs)
         elif prog == "co":
             expected = asyncio.run(plain(*args, **kwargs))
@@ -180,7 +185,7 @@ class World:
             except Exception as e:
                 incache = None
                 problems.append(("value", "check_call_in_cache raised %s: %s" % (type(e).__name__, e)))
-            if incache is not None and bool(incache) != (key in self.model) and prog not in ("p10", "p20"):
+            if incache is not None and bool(incache) != (key in self.model) and prog not in ("p10", "p20", "pk5", "pk7"):
                 problems.append(("hit", "check_call_in_cache=%r but the model says cached=%r for %s(%r, %r)" % (
                     incache, key in self.model, prog, args, kwargs)))
         try:
@@ -196,7 +201,7 @@ class World:
             problems.append(("value", "%s%r %r raised %s: %s" % (prog, args, kwargs, type(e).__name__, e)))
             return problems
         executed = len(log)
-        if prog in ("p10", "p20"):
+        if prog in ("p10", "p20", "pk5", "pk7"):
             # functools.partial objects cannot be inspected (documented: no ignore list, code identity by repr):
             # only value correctness is required of them
             if got != expected:
